@@ -55,7 +55,7 @@ def validate(patch, demo):
     return out
 
 
-def do_import(prop, src):
+def do_import(prop, src, offset=0):
     os.makedirs(SEEDED, exist_ok=True)
     mdir = os.path.join(src, 'mutants')
     for k in sorted(os.listdir(mdir)):
@@ -63,7 +63,7 @@ def do_import(prop, src):
         patch, demo, meta = (os.path.join(d, x) for x in ('patch.diff', 'demo.py', 'meta.json'))
         if not (os.path.exists(patch) and os.path.exists(demo)):
             continue
-        sid = f'{prop}-{k}'
+        sid = f'{prop}-{int(k) + offset}' if k.isdigit() else f'{prop}-{k}'
         v = validate(patch, demo)
         print(sid, json.dumps({a: b for a, b in v.items() if a != 'demo_patched_tail'}))
         if not v.get('valid'):
@@ -183,7 +183,7 @@ def main():
         do_runall(ids, nslots, tier, props)
         return
     if sys.argv[1] == 'import':
-        do_import(sys.argv[2], sys.argv[3])
+        do_import(sys.argv[2], sys.argv[3], int(sys.argv[4]) if len(sys.argv) > 4 else 0)
     elif sys.argv[1] == 'run':
         args = sys.argv[2:]
         tier = 'quick'
